@@ -2804,12 +2804,22 @@ sys.path.insert(0, os.environ['PAMQP_REPO']); sys.dont_write_bytecode = True
 time.tzset()
 from pamqp import encode, decode
 UTC = datetime.timezone.utc
+class SubDT(datetime.datetime):
+    """what pandas / pendulum / freezegun hand an application: a datetime subclass"""
 cases = json.load(sys.stdin)
 out = []
 for secs, micro, kind, offmin in cases:
     base = datetime.datetime(1970, 1, 1) + datetime.timedelta(seconds=secs, microseconds=micro)
+    via_props = kind.startswith('props_')
+    if via_props:
+        kind = kind[len('props_'):]
     if kind == 'naive':
         v = base
+    elif kind == 'naive_sub':
+        v = SubDT(base.year, base.month, base.day, base.hour, base.minute, base.second, base.microsecond, fold=offmin % 2)
+    elif kind == 'aware_sub':
+        a = base.replace(tzinfo=UTC).astimezone(datetime.timezone(datetime.timedelta(minutes=offmin)))
+        v = SubDT(a.year, a.month, a.day, a.hour, a.minute, a.second, a.microsecond, tzinfo=a.tzinfo)
     elif kind == 'aware':
         v = base.replace(tzinfo=UTC).astimezone(datetime.timezone(datetime.timedelta(minutes=offmin)))
     elif kind == 'aware_zone':
@@ -2834,7 +2844,16 @@ for secs, micro, kind, offmin in cases:
     else:
         v = time.struct_time(time.gmtime(secs))
     try:
-        b = encode.timestamp(v)
+        if via_props:
+            # the same value as the timestamp PROPERTY of a message: constructor (which validates), content header, wire
+            from pamqp import commands, header, frame
+            fb = frame.marshal(header.ContentHeader(0, 1, commands.Basic.Properties(timestamp=v)), 1)
+            b = fb[7 + 14:7 + 22]
+            got = frame.unmarshal(fb)[2].properties.timestamp
+            if decode.timestamp(b)[1] != got:
+                raise AssertionError('property decodes differently from its 8 bytes')
+        else:
+            b = encode.timestamp(v)
         n, d = decode.timestamp(b)
         t = encode.encode_table_value({'t': v, 'l': [v]})
         out.append([b.hex(), n, d.isoformat(), str(d.tzinfo), d.utcoffset().total_seconds(), t.hex(), secs])
@@ -2858,6 +2877,16 @@ def oracle_c15(ctx):
                 cases.append([s + d, 0, 'struct_local', 0])
                 cases.append([s + d, 0, 'struct_z', 0])
                 cases.append([s + d, 999999, 'aware', g.r.choice([0, 60, -300, 330, 345, 765, 840, -660])])
+    # wall-clock readings that do not exist in some zone (spring-forward gaps, a skipped day, a 15-minute step) and readings in
+    # the first hours of 1970: a NAIVE value means that reading in UTC, whatever the local zone thinks of it - as a plain
+    # datetime, as a datetime subclass, and as the timestamp property of a message
+    import calendar as _cal
+    walls = [(2024, 3, 31, 2, 30), (2024, 3, 10, 2, 30), (2024, 10, 6, 2, 15), (2024, 9, 29, 2, 50), (2024, 9, 29, 3, 0), (2011, 12, 30, 12, 0),
+             (1986, 1, 1, 0, 7), (2021, 3, 28, 2, 30), (2024, 3, 31, 1, 59), (2024, 3, 31, 3, 0)]
+    special = [_cal.timegm(w + (0,)) for w in walls] + [0, 1, 1800, 3599, 3600, 19800, 20700, 32400, 45900, 50399, 50400, 86399]
+    for s_ in special:
+        for kind_ in ('naive', 'naive_sub', 'aware_sub', 'props_naive', 'props_naive_sub', 'props_aware', 'props_struct'):
+            cases.append([s_, g.r.choice([0, 0, 999999]), kind_, g.r.choice([0, 1, 60, -300, 345])])
     # fall-back transitions 2024 of five zones (UTC instants), the repeated hour on both sides, both folds
     for zi, s in enumerate([1729990800, 1730613600, 1712417400, 1712411100, 1730608260]):
         for d in (-7200, -3601, -3600, -1800, -1, 0, 1, 1799, 1800, 3599, 3600, 7200):
